@@ -17,11 +17,11 @@ open O4.Consts.Obfs4 O4.Consts.Ntor O4.Consts.Framing
 
 /-! ## hypotheses on abstract primitives (lengths only) and their real instances -/
 
-/-- HMAC-SHA256 returns `sha256.Size` bytes -/
-def HmacLen (P : Handshake.Prims) : Prop := ∀ k m, (P.hmac k m).length = keySeedLength
+/-- HMAC-SHA256 returns `sha256.Size` bytes: `∀ k m, (P.hmac k m).length = keySeedLength` -/
+abbrev HmacLen := HsLemmas.HmacLen
 
 /-- the HKDF reader yields exactly the requested number of bytes (up to its entropy limit) -/
-def HkdfLen (P : Handshake.Prims) : Prop := ∀ s salt info n, n ≤ 255 * 32 → (P.hkdf s salt info n).length = n
+abbrev HkdfLen := HsLemmas.HkdfLen
 
 theorem hmacLen_real : HmacLen Prims.real := fun k m => Crypto.hmacSha256_length k m
 
@@ -30,25 +30,10 @@ theorem hkdfLen_real : HkdfLen Prims.real := fun s salt info n hn => by
   unfold Crypto.hkdf
   exact Crypto.hkdfExpand_length _ _ n hn
 
-/-- a toy instance: the length hypotheses are satisfiable by something that is not the real thing -/
-def toyPrims : Handshake.Prims where
-  hmac _ m := (m ++ List.replicate 32 0).take 32
-  x25519 a b := List.zipWith (· + ·) a b
-  hkdf s _ _ n := (List.replicate n 0).zipWith (· + ·) (s ++ List.replicate n 7)
-  reprToPublic r := r
-
-example : HmacLen toyPrims := fun k m => by simp [toyPrims, keySeedLength]
-example : HkdfLen toyPrims := fun s _ _ n _ => by simp [toyPrims]
+example : HmacLen HsLemmas.toyPrims := fun k m => by simp [HsLemmas.toyPrims, keySeedLength]; omega
+example : HkdfLen HsLemmas.toyPrims := fun s _ _ n _ => by simp [HsLemmas.toyPrims]
 
 /-! ## handshake lengths -/
-
-private theorem mark_length (P : Handshake.Prims) (hP : HmacLen P) (a b r : Bytes) :
-    (mark P a b r).length = markLength := by
-  simp [mark, hP _ _, keySeedLength, markLength]
-
-private theorem mac_length (P : Handshake.Prims) (hP : HmacLen P) (a b body : Bytes) (h : Int) :
-    (mac P a b body h).length = macLength := by
-  simp [mac, hP _ _, keySeedLength, macLength]
 
 /-- **client handshake**: `X' ‖ P_C ‖ M_C ‖ MAC_C` is `clientMinHandshakeLength + |P_C|` long;
     for every pad length the code can draw that is between 141 and 8192 bytes. -/
@@ -60,7 +45,7 @@ theorem client_hs_length (P : Handshake.Prims) (hP : HmacLen P) (idPub nodeID re
     (clientBlob P idPub nodeID repr pad hour).length ≤ maxHandshakeLength ∧
     clientMinHandshakeLength + clientMinPadLength = 141 ∧ maxHandshakeLength = 8192 := by
   have hl : (clientBlob P idPub nodeID repr pad hour).length = clientMinHandshakeLength + pad.length := by
-    simp only [clientBlob, List.length_append, mark_length P hP, mac_length P hP, hr]
+    simp only [clientBlob, List.length_append, HsLemmas.mark_length P hP, HsLemmas.mac_length P hP, hr]
     simp only [representativeLength, markLength, macLength, clientMinHandshakeLength]
     omega
   refine ⟨hl, ?_, ?_, by decide, by decide⟩
@@ -124,7 +109,7 @@ theorem server_hs_length (P : Handshake.Prims) (hP : HmacLen P) (idPub nodeID re
     (serverBlob P idPub nodeID repr auth pad hour).length + inlineSeedFrameLength ≤ maxHandshakeLength ∧
     serverMinHandshakeLength = 96 ∧ maxHandshakeLength - inlineSeedFrameLength = 8192 - 45 := by
   have hl : (serverBlob P idPub nodeID repr auth pad hour).length = serverMinHandshakeLength + pad.length := by
-    simp only [serverBlob, List.length_append, mark_length P hP, mac_length P hP, hr, ha]
+    simp only [serverBlob, List.length_append, HsLemmas.mark_length P hP, HsLemmas.mac_length P hP, hr, ha]
     simp only [representativeLength, authLength, markLength, macLength, serverMinHandshakeLength]
     omega
   refine ⟨hl, ?_, ?_, by decide, by decide⟩
